@@ -18,8 +18,8 @@ def build():
     return vlib.build_harness('c18_threads', ['c18_threads.c'], variant='tsan', units=('mir', 'mir-gen', 'c2mir'))
 
 
-def run_set(exe, threads, reps, mode, timeout=600):
-    lines = ['threads %d reps %d mode %s' % (len(threads), reps, mode)]
+def run_set(exe, threads, reps, mode, alloc='default', timeout=600):
+    lines = ['threads %d reps %d mode %s alloc %s' % (len(threads), reps, mode, alloc)]
     for tid, sc in enumerate(threads):
         lines += ['%d %s' % (tid, l) for l in sc]
     lines.append('end')
@@ -97,6 +97,19 @@ def focused_sets(rng):
         x = nm()
         return ['init', 'scan ' + H(G.MIR_POOL[1].replace('@N@', x)), 'api 3 1', 'write', 'fwrite', 'output', 'finish']
     sets.append(('io', [io_script() for _ in range(4)], 3))
+    # code pages: all contexts take their holders from one arena (neighbouring pages), publish code that ends exactly at
+    # the end of a page, patch and run it; every protection change must stay inside the context's own pages
+    def code_script(iface):
+        x = nm()
+        L = ['init', 'scan ' + H(G.MIR_POOL[0].replace('@N@', x)), 'load']
+        if iface != 'interp':
+            L += ['gen_init', 'opt 1']
+        L += ['link ' + iface, 'fill', ('interp f%s 4' if iface == 'interp' else 'call f%s 4') % x, 'fill',
+              'scan ' + H(G.MIR_POOL[2].replace('@N@', x + 'c')), 'load', 'link ' + iface,
+              ('interp f%sc 5' if iface == 'interp' else 'call f%sc 5') % x]
+        L += (['gen_finish'] if iface != 'interp' else []) + ['finish']
+        return L
+    sets.append(('codepages@arena', [code_script(i) for i in ('interp', 'gen', 'lazy', 'interp', 'lazybb', 'gen')], 3))
     return sets
 
 
@@ -120,19 +133,20 @@ def run(chk):
     for _ in range(nrand):
         nt = rng.choice([2, 3, 4, 6, 8])
         th = [G.Scen(rng, [0]).lines for _ in range(nt)]
-        sets.append(('random', th, rng.choice([1, 2, 3])))
+        sets.append((rng.choice(['random', 'random@arena']), th, rng.choice([1, 2, 3])))
     found = {}
     nrep = 0
     for name, th, reps in sets:
-        rc, out, err, lines = run_set(exe, th, reps, 'par')
-        rc2, out2, err2, _ = run_set(exe, th, reps, 'seq')
+        alloc = 'arena' if name.endswith('@arena') else 'default'
+        rc, out, err, lines = run_set(exe, th, reps, 'par', alloc)
+        rc2, out2, err2, _ = run_set(exe, th, reps, 'seq', alloc)
         chk.count(lines, nontrivial=len(th) >= 2)
         chk.dist('sets', name)
         chk.dist('threads', len(th))
         for sc in th:
             for l in sc:
                 chk.dist('api_calls', l.split()[0])
-        if rc2 != 0 or 'ThreadSanitizer' in err2:
+        if (rc2 != 0 or 'ThreadSanitizer' in err2) and 'FOREIGN-' not in err2 + out2:
             # the sequential run itself misbehaves: not a statement about interference
             raise vlib.BuildError('sequential reference run failed (rc %d): %s' % (rc2, (err2 or out2)[-600:]))
         reports = parse_tsan(err)
@@ -142,9 +156,17 @@ def run(chk):
                                                     location=r['location']),
                                         'unsynchronised conflicting access between threads using different contexts: %s (%s)' % (
                                             r['location'] or '/'.join(r['frames']), r['kind'])))
-        if rc not in (0, 66):
+        incomplete = [t for t in range(len(th)) if ('T%d DONE' % t) not in out and ('T%d FAILED' % t) not in out]
+        if rc not in (0, 66) or 'DEADLYSIGNAL' in err or incomplete:
             found.setdefault('crash:' + name, (lines, dict(set=name, rc=rc, stderr=err[-1500:]),
                                                'parallel run of independent contexts crashed (rc %d)' % rc))
+        for o, which in ((out + err, 'parallel'), (out2 + err2, 'sequential')):
+            fl = [l for l in o.split('\n') if 'FOREIGN-' in l]
+            if fl:
+                kind = fl[0].split('FOREIGN-')[1].split()[0]
+                found.setdefault('foreign-code-page:' + kind,
+                                 (lines, dict(set=name, run=which, messages=fl[:5]),
+                                  'a context changed the protection of / unmapped a code page it does not own: ' + fl[0][:160]))
         a, b = per_thread(out), per_thread(out2)
         if a != b and rc in (0, 66):
             bad = sorted(t for t in set(a) | set(b) if a.get(t) != b.get(t))
